@@ -16,7 +16,7 @@
   `parse_args` mutates `kwargs` statement by statement; the model threads the same dict through the
   same statements: the `style` keyword moved to the positional args, the `for arg in args` loop
   (`posStep`), the `for k in kwargs` loop (`keyLoop`), the `fg` block and the `bg` block
-  (`colourBlock`).  The returned dict is read into an `Atts` record by `toAtts`, which can fail only
+  (`colourBlock`).  The returned dict is read into an `Atts` record by `toAtts` (by key, as `d['fg']` does), which can fail only
   if the regenerated colour tables stop being 30..37 / 40..47 (then the `Fin 8` representation of
   `Model/Basic.lean` no longer applies; reported as `otherException`, refuted for the live tables by
   `C14_tables`).
@@ -124,25 +124,47 @@ def flagOf : ArgVal → Option Bool
   | .bool b => some b
   | _ => none
 
-/-- One entry of the returned dict written into the record. -/
-def setEntry (a : Atts) (k : String) (v : ArgVal) : Option Atts :=
-  if k == "fg" then (colourIndex 30 v).map fun c => { a with fg := some c }
-  else if k == "bg" then (colourIndex 40 v).map fun c => { a with bg := some c }
-  else if k == "bold" then (flagOf v).map fun b => { a with bold := some b }
-  else if k == "dark" then (flagOf v).map fun b => { a with dark := some b }
-  else if k == "italic" then (flagOf v).map fun b => { a with italic := some b }
-  else if k == "underline" then (flagOf v).map fun b => { a with underline := some b }
-  else if k == "blink" then (flagOf v).map fun b => { a with blink := some b }
-  else if k == "invert" then (flagOf v).map fun b => { a with invert := some b }
+/-- The eight legal attribute names. -/
+def attKeys : List String := ["bg", "blink", "bold", "dark", "fg", "invert", "italic", "underline"]
+
+/-- `d.get('fg')` read as a colour index: outer `none` = the value is not a colour number of the table. -/
+def readColour (base : Int) : Option ArgVal → Option (Option (Fin 8))
+  | none => some none
+  | some v => (colourIndex base v).map some
+/-- `d.get('bold')` read as a flag: outer `none` = the value is not a bool. -/
+def readFlag : Option ArgVal → Option (Option Bool)
+  | none => some none
+  | some v => (flagOf v).map some
+
+/-- The dict `parse_args` returns, read as an `Atts` record: every key must be one of the eight legal
+    names and every value representable; otherwise `none` (nothing is defaulted). -/
+def toAtts (kw : Kw) : Option Atts :=
+  if kw.all (fun p => attKeys.contains p.1) then do
+    let bg ← readColour 40 (kw.get? "bg")
+    let blink ← readFlag (kw.get? "blink")
+    let bold ← readFlag (kw.get? "bold")
+    let dark ← readFlag (kw.get? "dark")
+    let fg ← readColour 30 (kw.get? "fg")
+    let invert ← readFlag (kw.get? "invert")
+    let italic ← readFlag (kw.get? "italic")
+    let underline ← readFlag (kw.get? "underline")
+    pure { bg, blink, bold, dark, fg, invert, italic, underline }
   else none
 
-/-- The dict `parse_args` returns, read as an `Atts` record (keys are distinct). -/
-def toAtts : Atts → Kw → Option Atts
-  | a, [] => some a
-  | a, (k, v) :: rest =>
-    match setEntry a k v with
-    | some a' => toAtts a' rest
-    | none => none
+/-- `parse_args` after the positional loop: the key loop, the `fg` block, the `bg` block, `return kwargs`. -/
+def parseTail (kwargs : Kw) : Except PyErr Atts :=
+  match keyLoop kwargs with
+  | .error e => .error e
+  | .ok () =>
+    match colourBlock Generated.fgColors "fg" kwargs with
+    | .error e => .error e
+    | .ok kwargs =>
+      match colourBlock Generated.bgColors "bg" kwargs with
+      | .error e => .error e
+      | .ok kwargs =>
+        match toAtts kwargs with
+        | some a => .ok a
+        | none => .error .otherException
 
 /-- `parse_args(args, kwargs)` -/
 def parseArgs (lower : String → String) (args : List ArgVal) (kwargs : Kw) : Except PyErr Atts :=
@@ -153,19 +175,7 @@ def parseArgs (lower : String → String) (args : List ArgVal) (kwargs : Kw) : E
     | none => (args, kwargs)
   match posLoop lower kwargs args with
   | .error e => .error e
-  | .ok kwargs =>
-    match keyLoop kwargs with
-    | .error e => .error e
-    | .ok () =>
-      match colourBlock Generated.fgColors "fg" kwargs with
-      | .error e => .error e
-      | .ok kwargs =>
-        match colourBlock Generated.bgColors "bg" kwargs with
-        | .error e => .error e
-        | .ok kwargs =>
-          match toAtts {} kwargs with
-          | some a => .ok a
-          | none => .error .otherException
+  | .ok kwargs => parseTail kwargs
 
 /-- `fmtstr(string, *args, **kwargs)` for `string` already a FmtStr (a `str` without `ESC [` becomes
     `FmtStr(Chunk(string))` first — `from_str`, C17): parse, then `copy_with_new_atts`. -/
